@@ -284,6 +284,65 @@ def translate(fn, coq_sig, env_types, state, ret):
     return coq_sig + " :=\n" + w.block(list(fn.body), env, end) + ".\n"
 
 
+# ---------------------------------------------------------------- docutils/nodes.py: the registry methods MyST calls
+NODES_EFFECTS = {
+    # ids are modelled by names / reference indices: set_id has no counterpart ; note_refname feeds document.refnames,
+    # which the footnote pipeline never reads
+    "self.set_id(footnote)": None, "self.set_id(ref)": None, "self.note_refname(ref)": None,
+    "self.autofootnotes.append(footnote)": "set_autofootnotes g (g_autofootnotes g ++ [footnote])",
+    "self.footnotes.append(footnote)": "set_footnotes g (g_footnotes g ++ [footnote])",
+    "self.autofootnote_refs.append(ref)": "set_autofootnote_refs g (g_autofootnote_refs g ++ [ref])",
+    "self.footnote_refs.setdefault(ref['refname'], []).append(ref)": "set_footnote_refs g (dappend (g_footnote_refs g) (r_label ref) ref)",
+}
+
+
+def translate_note(cls, name, arg, ty):
+    f = method(cls, name)
+    if [a.arg for a in f.args.args] != ["self", arg]:
+        raise Untranslatable(f"document.{name} signature")
+    out = "g"
+    lets = []
+    for s in f.body:
+        src = u(s)
+        if src not in NODES_EFFECTS:
+            raise Untranslatable(f"document.{name}: {src}")
+        if NODES_EFFECTS[src] is not None:
+            lets.append(f"let g := {NODES_EFFECTS[src]} in")
+    return f"Definition {name}_doc (g : regs) ({arg} : {ty}) : regs :=\n" + "\n".join(lets + ["g"]) + ".\n"
+
+
+def translate_set_name_id_map(cls):
+    """for name in tuple(node['names']): if name in self.nameids: self.set_duplicate_name_id(..) else: self.nameids[name] = id;
+    self.nametypes[name] = explicit   -- the duplicate branch (dupnames bookkeeping) is outside the footnote model: Raise"""
+    f = method(cls, "set_name_id_map")
+    body = [s for s in f.body if not (isinstance(s, ast.Expr) and isinstance(s.value, ast.Constant))]
+    want = ("for name in tuple(node['names']):\n    if name in self.nameids:\n        self.set_duplicate_name_id(node, id, name, msgnode, explicit)\n"
+            "    else:\n        self.nameids[name] = id\n        self.nametypes[name] = explicit")
+    if len(body) != 1 or u(body[0]) != want:
+        raise Untranslatable("document.set_name_id_map no longer has the translated shape")
+    g = method(cls, "note_explicit_target")
+    if [u(s) for s in g.body] != ["id = self.set_id(target, msgnode)", "self.set_name_id_map(target, id, msgnode, explicit=True)"]:
+        raise Untranslatable("document.note_explicit_target no longer has the translated shape")
+    return ("Definition set_name_id_map_doc (g : regs) (node : fn) : res regs :=\n"
+            "do g <- fold_res (fun (g : regs) (name : str) =>\n"
+            "if (mem_str name (g_nameids g)) then\n(Raise AssertionError)   (* set_duplicate_name_id: not modelled *)\nelse\n"
+            "(let g := set_nameids g (g_nameids g ++ [name]) in\nOk g)) (fn_names node) g;\nOk g.\n\n"
+            "Definition note_explicit_target_doc (g : regs) (target : fn) : res regs :=\nset_name_id_map_doc g target.\n")
+
+
+def generate_nodes() -> str:
+    from docutils import nodes as dn
+    tree = ast.parse(Path(dn.__file__).read_text())
+    cls = next((c for c in tree.body if isinstance(c, ast.ClassDef) and c.name == "document"), None)
+    if cls is None:
+        raise Untranslatable("class document not found in docutils.nodes")
+    return "\n".join([translate_note(cls, "note_autofootnote", "footnote", "fn"),
+                      translate_note(cls, "note_footnote", "footnote", "fn"),
+                      translate_note(cls, "note_autofootnote_ref", "ref", "rf"),
+                      translate_note(cls, "note_footnote_ref", "ref", "rf"),
+                      translate_set_name_id_map(cls)])
+
+
 def generate() -> str:
     import docutils
     from docutils.transforms import references
@@ -348,7 +407,8 @@ def generate() -> str:
             "From MV Require Import Base.PyStr Base.Res Refs.RUtil Gen.Transforms Refs.Foot Refs.FootOps Refs.DocutilsOps.\n"
             "Import ListNotations.\nOpen Scope N_scope.\n\n"
             + "\n".join(parts)
-            + f"\n(* symbolize_footnotes is not translated: source hash {h} (locked) *)\n")
+            + f"\n(* symbolize_footnotes is not translated: source hash {h} (locked) *)\n"
+            + "\n(* ---- docutils/nodes.py : the registry methods of class document that MyST calls ---- *)\n" + generate_nodes())
 
 
 if __name__ == "__main__":
